@@ -673,6 +673,9 @@ impl<'tcx> Dumper<'tcx> {
                if let Some(l) = label {
                   bv.push(("label", s(l.ident.name.to_string())));
                }
+               if let Some(sn) = self.snippet(e.span) {
+                  bv.push(("snip", s(sn)));
+               }
             }
             return bj;
          },
